@@ -1,9 +1,9 @@
 """Generator of buildable Dezyne models + configurations, and of single-fault variations of them."""
 import copy
 
-NS = ['My', 'Hal', 'Sub', 'A', 'B', 'Proj']
-ITF = ['IApi', 'IHal', 'ICtl', 'IToaster']
-EXT = ['Str', 'Int', 'T', 'MilliSeconds', 'PIncident']
+NS = ['My', 'Hal', 'Sub', 'A', 'B', 'Proj', 'MyLib', 'Su']     # some contain others
+ITF = ['IApi', 'IHal', 'ICtl', 'IToaster', 'IApi2', 'Api', 'IHalt']
+EXT = ['Str', 'Int', 'T', 'MilliSeconds', 'PIncident', 'Integer', 'St']
 EXTV = ['std::string', 'int', 'size_t', '::Sub::MyLongNamedType', '::My::Data<int>', 'std::shared_ptr<::Incident>', 'const char*', '::Incident*']
 PORTS = ['api', 'ctl', 'hal', 'hal2', 'cord', 'led', 'p1', 'x_y', 'Api2', 'q']
 EVIN = ['Claim', 'Release', 'Drop', 'Use', 'Initialize', 'Go', 'Set', 'Cancel', 'TryClaim', 'ReleaseAll', 'UseUp']   # some contain others
@@ -53,8 +53,9 @@ def gen_case(rng, rich=True):
     n_itf = rng.choice([1, 1, 2, 3])
     itfs = []
     used_names = set()
+    itf_names = rng.sample(ITF, n_itf)
     for k in range(n_itf):
-        name = ITF[k]
+        name = itf_names[k]
         # visible from the component's parent scope: declared in a prefix of comp_scope, or anywhere when fully qualified
         if rng.random() < 0.7:
             scope = comp_scope[:rng.randint(0, len(comp_scope))]
